@@ -8,6 +8,7 @@ use std::panic::{catch_unwind, AssertUnwindSafe};
 mod ops_names;
 mod ops_lexer;
 mod ops_types;
+mod ops_graph;
 
 fn s(v: &Value, k: &str) -> String {
     // strings are passed as arrays of bytes ("bytes") or as plain JSON strings
@@ -28,6 +29,7 @@ fn dispatch(v: &Value) -> Value {
         "alt_key" | "semver_compat" | "namemap" | "semver_parse" => ops_names::run(op, v),
         "lexer_spans" | "block_comment_length" | "lex_string" | "discover" => ops_lexer::run(op, v),
         "subtype" | "package_from_wat" | "aggregate" => ops_types::run(op, v),
+        "graph" => ops_graph::run(op, v),
         _ => json!({"error": format!("unknown op {op}")}),
     }
 }
